@@ -79,7 +79,7 @@ func (g *agen) schema(d int) O {
 }
 
 func (g *agen) feature(s O, d int) {
-	switch g.Int(0, 10) {
+	switch g.Int(0, 11) {
 	case 0:
 		if _, ok := s["type"]; !ok {
 			s["type"] = "object"
@@ -128,6 +128,14 @@ func (g *agen) feature(s O, d int) {
 	case 10:
 		s["not"] = g.schema(d + 1)
 		g.Label("kw:not")
+	case 11:
+		// additionalItems on its own: loadable whether or not "items" is there, and still a schema location
+		s["additionalItems"] = g.schema(d + 1)
+		if _, ok := s["items"]; !ok {
+			g.Label("kw:additionalItems-without-items")
+		} else {
+			g.Label("kw:additionalItems")
+		}
 	}
 }
 
